@@ -56,6 +56,14 @@ def run(ctx):
         add(0, 6 | (4 << 8), '-', recs, 'easy preset 6 on 4.3 MiB of near-identical records', mode=0, dec=('xz', 0))
         add(4, 1 << 8, 'lzma2:dict=16KiB,mode=normal,mf=bt4,nice=64', inc, 'small window + 700 KB incompressible stretch', mode=0, dec=('xz', 0))
         add(3, 0, 'lzma2:dict=8KiB,mode=fast,mf=hc4,nice=32', inc, 'raw small window + incompressible stretch', mode=3, dec=('raw', 'lzma2:dict=8KiB'))
+        # > 2 MiB that compresses better than 32:1 with matches far longer than nice_len: an LZMA2 chunk reaches the
+        # 2 MiB uncompressed-size cap before its compressed-size cap (the chunk must be closed with room for one more match)
+        zer = bytes((2 << 20) + 300000); per = (bytes(rng.getrandbits(8) for _ in range(rng.choice([3, 10, 37]))) * 900000)[:(2 << 20) + 200000]
+        for hd, nm in ((zer, 'zeros'), (per, 'short-period pattern')):
+            add(0, 6 | (4 << 8), '-', hd, 'easy preset 6 on 2.3 MiB of ' + nm, mode=0, dec=('xz', 0))
+            add(0, 1 | (1 << 8), '-', hd, 'easy preset 1 on 2.3 MiB of ' + nm, mode=3, dec=('xz', 0))
+            add(3, 0, 'lzma2:dict=1MiB,mode=fast,mf=hc3,nice=%d' % rng.choice([2, 16, 100]), hd, 'raw nice<273 on 2.3 MiB of ' + nm, mode=0, dec=('raw', 'lzma2:dict=1MiB'))
+            add(1, 6 | (1 << 8) | (1 << 12), '-', hd, 'mt preset 6 one Block on 2.3 MiB of ' + nm, mode=0, dec=('xz', 0))
     # run encoders: group by bias so that one process handles one bias value
     bygroup = {}
     for j in jobs: bygroup.setdefault(j[4], []).append(j)
